@@ -77,7 +77,9 @@ def install_state_machine(I, ghost):
                 ghost.setdefault("refused", []).append((st["v"], v, who[-1] if who else None))
                 raise PyRaise(Obj(terr, {"args": (f"Cannot transit from '{st['v']}' to '{v}'.",), "__cause__": None}))
             ghost.setdefault("transitions", []).append((st["v"], v))
-            st["v"] = v
+            old, st["v"] = st["v"], v
+            for cb in ghost.get("on_transition", ()):
+                cb(old, v)
         m = Opaque("machine", {"methods": {"set_": set_}, "isinstance_default": False, "truth": True,
                                "dyn_attrs": {"actual_state": lambda I2, o: Opaque("state-enum", {"dyn_attrs": {"value": lambda I3, o3: st["v"]}})}})
         m.attrs["$st"] = st
@@ -128,7 +130,7 @@ class Bundler:
         def m_open(I_, o, a, k):
             me.open = True
             me.uid = Opaque(I_.w.fresh("run_uid"), {"token": "run_uid", "truth": True})
-            ev("open_run", me)
+            ev("open_run", me, a[0])
             return aio.Ready(me.uid)
 
         def m_close(I_, o, a, k):
